@@ -147,7 +147,7 @@ func ruleTreeOverlap(w *World, r *Report) {
 		r.add("TYPESTATE", fn+" / IsOverlap on empty tree", pos, Discharged, "with an empty first list no path reaches tree.IsOverlap")
 	}
 	// answer shape: true only from IsOverlap, false after the loops
-	nT, nF, badRet := 0, 0, ""
+	nT, nF, badRet, unknownRet := 0, 0, "", ""
 	for _, ret := range returnsOf(f) {
 		if classifyReturn(f, ret) != retSuccess {
 			continue
@@ -179,13 +179,19 @@ func ruleTreeOverlap(w *World, r *Report) {
 				continue
 			}
 		}
-		badRet = "success return value is neither the IsOverlap result nor false (" + describeValue(ret.Results[0]) + " at " + w.Pos(ret.Pos()) + ")"
-	}
-	if badRet != "" || nT == 0 || nF == 0 {
-		if badRet == "" {
-			badRet = fmt.Sprintf("expected a true-return from IsOverlap inside the second loop and a false-return after it, found %d and %d", nT, nF)
+		if _, isConst := v.(*ssa.Const); isConst {
+			badRet = "a constant answer is returned that is not guarded by the IsOverlap result (" + describeValue(ret.Results[0]) + " at " + w.Pos(ret.Pos()) + ")"
+		} else {
+			unknownRet = "success return value is neither the IsOverlap result nor a constant (" + describeValue(ret.Results[0]) + " at " + w.Pos(ret.Pos()) + ")"
 		}
+	}
+	if badRet != "" {
 		r.add("EXISTS-LOOP", fn+" / answer", pos, Violated, badRet)
+	} else if unknownRet != "" || nT == 0 || nF == 0 {
+		if unknownRet == "" {
+			unknownRet = fmt.Sprintf("expected a true-return from IsOverlap inside the second loop and a false-return after it, found %d and %d", nT, nF)
+		}
+		r.add("EXISTS-LOOP", fn+" / answer", pos, Undecided, unknownRet)
 	} else {
 		r.add("EXISTS-LOOP", fn+" / answer", pos, Discharged, "true is returned only from an IsOverlap hit, false only after all elements were examined")
 	}
@@ -204,12 +210,12 @@ func ruleExistsLoop(w *World, r *Report) {
 	pos := w.Pos(f.Pos())
 	l1, l2 := loopOverParam(f, 0), loopOverParam(f, 1)
 	if l1 == nil || l2 == nil || !l1.blocks()[l2.Header] {
-		r.add("EXISTS-LOOP", fn+" / nest", pos, Violated, "expected a loop over the second list nested in a loop over the first list")
+		r.add("EXISTS-LOOP", fn+" / nest", pos, Undecided, "expected a loop over the second list nested in a loop over the first list")
 		return
 	}
 	calls := callsTo(f, func(g *ssa.Function) bool { return g == pair })
 	if len(calls) != 1 || !l2.blocks()[calls[0].Block()] {
-		r.add("EXISTS-LOOP", fn+" / pair call", pos, Violated, fmt.Sprintf("expected exactly one call of the pair form inside the inner loop, found %d", len(calls)))
+		r.add("EXISTS-LOOP", fn+" / pair call", pos, Undecided, fmt.Sprintf("expected exactly one call of the pair form inside the inner loop, found %d", len(calls)))
 		return
 	}
 	c := calls[0]
@@ -225,7 +231,7 @@ func ruleExistsLoop(w *World, r *Report) {
 	}
 	res := extractOf(c, 0)
 	nT, nF := 0, 0
-	bad := ""
+	bad, unknown := "", ""
 	for _, ret := range returnsOf(f) {
 		if classifyReturn(f, ret) != retSuccess {
 			continue
@@ -246,13 +252,19 @@ func ruleExistsLoop(w *World, r *Report) {
 			nT++
 			continue
 		}
-		bad = "unexpected success return " + describeValue(ret.Results[0]) + " at " + w.Pos(ret.Pos())
-	}
-	if bad != "" || nT == 0 || nF == 0 {
-		if bad == "" {
-			bad = fmt.Sprintf("expected a true-return guarded by the pair result and a false-return after the loops, found %d and %d", nT, nF)
+		if _, isConst := v.(*ssa.Const); isConst {
+			bad = "a constant answer is returned that is not guarded by the pair result (" + describeValue(ret.Results[0]) + " at " + w.Pos(ret.Pos()) + ")"
+		} else {
+			unknown = "success return " + describeValue(ret.Results[0]) + " at " + w.Pos(ret.Pos()) + " is neither the pair result nor a constant"
 		}
+	}
+	if bad != "" {
 		r.add("EXISTS-LOOP", fn+" / answer", pos, Violated, bad)
+	} else if unknown != "" || nT == 0 || nF == 0 {
+		if unknown == "" {
+			unknown = fmt.Sprintf("expected a true-return guarded by the pair result and a false-return after the loops, found %d and %d", nT, nF)
+		}
+		r.add("EXISTS-LOOP", fn+" / answer", pos, Undecided, unknown)
 	} else {
 		r.add("EXISTS-LOOP", fn+" / answer", pos, Discharged, "true iff some pair overlaps; false after the nest")
 	}
@@ -429,13 +441,13 @@ func ruleLineIncludes(w *World, r *Report) {
 		if ok {
 			r.add("INCLUDES", key, w.Pos(ret.Pos()), Discharged, "returns the accumulator (or its de-duplication)")
 		} else {
-			r.add("INCLUDES", key, w.Pos(ret.Pos()), Violated, "the returned list is not the accumulator that holds the end-point IDs ("+describeValue(ret.Results[0])+")")
+			r.add("INCLUDES", key, w.Pos(ret.Pos()), Undecided, "the returned list could not be traced to the accumulator that holds the end-point IDs ("+describeValue(ret.Results[0])+")")
 		}
 	}
 	if single {
 		r.add("EARLY-SINGLE", fn, pos, Discharged, "a success return of the de-duplicated end-point list is guarded by len == 1")
 	} else {
-		r.add("EARLY-SINGLE", fn, pos, Violated, "no success return of the de-duplicated end-point list guarded by len(list) == 1: both end points in one voxel must yield that single ID")
+		r.add("EARLY-SINGLE", fn, pos, Undecided, "no success return of the de-duplicated end-point list guarded by len(list) == 1: both end points in one voxel must yield that single ID")
 	}
 	// recursion: zoom pass-through and callback
 	cl := closureOf(w, []*ssa.Function{f})
@@ -462,7 +474,7 @@ func ruleLineIncludes(w *World, r *Report) {
 			}
 		}
 		if hz < 0 || vz < 0 {
-			r.add("PASSTHRU", gname+" / zooms", w.Pos(g.Pos()), Violated, "the recursion does not receive hZoom and vZoom")
+			r.add("PASSTHRU", gname+" / zooms", w.Pos(g.Pos()), Undecided, "the recursion does not receive hZoom and vZoom as parameters")
 			continue
 		}
 		okAll := true
@@ -864,7 +876,7 @@ func ruleStencil(w *World, r *Report) {
 		if okRet {
 			r.add("STENCIL", it[0]+" / result", pos, Discharged, "the returned list is built from an empty list by the loop's appends only")
 		} else {
-			r.add("STENCIL", it[0]+" / result", pos, Violated, "the returned list is not exactly the list accumulated by the loop")
+			r.add("STENCIL", it[0]+" / result", pos, Undecided, "the returned list could not be identified with the list accumulated by the loop")
 		}
 	}
 	ruleNLayer(w, r, shift)
@@ -985,12 +997,12 @@ func ruleNLayer(w *World, r *Report, shift *ssa.Function) {
 	sort.SliceStable(four, func(i, j int) bool { return contains(four[i], four[j]) })
 	for i := 0; i+1 < len(four); i++ {
 		if !contains(four[i], four[i+1]) {
-			r.add("STENCIL", fn+" / box minus origin", pos, Violated, "the three offset loops and the loop over the input IDs are not nested in one another")
+			r.add("STENCIL", fn+" / box minus origin", pos, Undecided, "the three offset loops and the loop over the input IDs are not nested in one another")
 			return
 		}
 	}
 	if !reachableFrom(four[3].body, map[*ssa.BasicBlock]bool{four[3].hdr: true})[c.Block()] {
-		r.add("STENCIL", fn+" / box minus origin", pos, Violated, "the shift is not inside the innermost of the four loops")
+		r.add("STENCIL", fn+" / box minus origin", pos, Undecided, "the shift is not inside the innermost of the four loops")
 		return
 	}
 	varIdx := func(v ssa.Value) int {
